@@ -83,18 +83,27 @@ type Res struct {
 // one with leading whitespace, a commented one before a comment-free one).
 func TokBattery(t *tokenizer.Tokenizer, rot int) []Res {
 	out := make([]Res, 0, len(Inputs)*2)
-	for i := range Inputs {
-		in := Inputs[(i+rot)%len(Inputs)]
-		toks, err := t.TokenizeContext(simctx.Never(), []byte(in.SQL))
-		out = append(out, Res{in.Name + "/TokenizeContext", "tokens=" + canon.Of(toks) + " err=" + canon.Err(err) + " comments=" + canon.Of(t.Comments)})
-	}
-	for i := range Inputs {
-		in := Inputs[(i+rot)%len(Inputs)]
-		toks, err := t.Tokenize([]byte(in.SQL))
-		out = append(out, Res{in.Name + "/Tokenize", "tokens=" + canon.Of(toks) + " err=" + canon.Err(err) + " comments=" + canon.Of(t.Comments) + " dialect=" + string(t.Dialect())})
+	// rot also decides which entry point sees the instance first: state that only
+	// one of them fails to clear must not be wiped by the other one's pass
+	tokFirst := (rot/len(Inputs))%2 == 1
+	for phase := 0; phase < 2; phase++ {
+		for i := range Inputs {
+			in := Inputs[(i+rot)%len(Inputs)]
+			if (phase == 0) == tokFirst {
+				toks, err := t.Tokenize([]byte(in.SQL))
+				out = append(out, Res{in.Name + "/Tokenize", "tokens=" + canon.Of(toks) + " err=" + canon.Err(err) + " comments=" + canon.Of(t.Comments) + " dialect=" + string(t.Dialect())})
+			} else {
+				toks, err := t.TokenizeContext(simctx.Never(), []byte(in.SQL))
+				out = append(out, Res{in.Name + "/TokenizeContext", "tokens=" + canon.Of(toks) + " err=" + canon.Err(err) + " comments=" + canon.Of(t.Comments)})
+			}
+		}
 	}
 	return out
 }
+
+// Rotations is the number of distinct battery orders (argument rot of
+// TokBattery / ParBattery ranges over [0, Rotations)).
+func Rotations() int { return len(Inputs) * 6 }
 
 var probeTokens [][]models.TokenWithSpan
 
@@ -114,19 +123,27 @@ func init() {
 // seen before a positioned call overwrites them.
 func ParBattery(p *parser.Parser, rot int) []Res {
 	out := make([]Res, 0, len(Inputs)*4)
+	first := (rot / len(Inputs)) % 3 // which position-less entry point goes first
 	for i := range Inputs {
 		j := (i + rot) % len(Inputs)
 		in, toks := Inputs[j], probeTokens[j]
 		if toks == nil {
 			continue
 		}
-		tree, err := p.ParseFromModelTokens(toks)
-		out = append(out, Res{in.Name + "/ParseFromModelTokens", "tree=" + canon.Of(tree) + " err=" + canon.Err(err)})
-		tree, err = p.ParseContextFromModelTokens(simctx.Never(), toks)
-		out = append(out, Res{in.Name + "/ParseContextFromModelTokens", "tree=" + canon.Of(tree) + " err=" + canon.Err(err)})
-		stmts, errs := p.ParseWithRecoveryFromModelTokens(toks)
-		out = append(out, Res{in.Name + "/ParseWithRecoveryFromModelTokens", "stmts=" + canon.Of(stmts) + " errs=" + canon.Of(errs)})
-		tree, err = p.ParseFromModelTokensWithPositions(toks)
+		for k := 0; k < 3; k++ {
+			switch (k + first) % 3 {
+			case 0:
+				tree, err := p.ParseFromModelTokens(toks)
+				out = append(out, Res{in.Name + "/ParseFromModelTokens", "tree=" + canon.Of(tree) + " err=" + canon.Err(err)})
+			case 1:
+				tree, err := p.ParseContextFromModelTokens(simctx.Never(), toks)
+				out = append(out, Res{in.Name + "/ParseContextFromModelTokens", "tree=" + canon.Of(tree) + " err=" + canon.Err(err)})
+			default:
+				stmts, errs := p.ParseWithRecoveryFromModelTokens(toks)
+				out = append(out, Res{in.Name + "/ParseWithRecoveryFromModelTokens", "stmts=" + canon.Of(stmts) + " errs=" + canon.Of(errs)})
+			}
+		}
+		tree, err := p.ParseFromModelTokensWithPositions(toks)
 		out = append(out, Res{in.Name + "/ParseFromModelTokensWithPositions", "tree=" + canon.Of(tree) + " err=" + canon.Err(err)})
 	}
 	return out
@@ -177,23 +194,35 @@ func Part(a, b string) string {
 var cheapIdx = []int{0, 5, 8}
 
 // TokBatteryCheap runs three probes (located reject, depth at limit, comment-free).
-func TokBatteryCheap(t *tokenizer.Tokenizer) []Res {
+func TokBatteryCheap(t *tokenizer.Tokenizer, rot int) []Res {
 	out := make([]Res, 0, 3)
-	for _, i := range []int{9, 0, 8} {
-		in := Inputs[i]
-		toks, err := t.Tokenize([]byte(in.SQL))
-		out = append(out, Res{in.Name + "/Tokenize", "tokens=" + canon.Of(toks) + " err=" + canon.Err(err) + " comments=" + canon.Of(t.Comments)})
+	idx := []int{9, 0, 8}
+	for n := range idx {
+		in := Inputs[idx[(n+rot)%3]]
+		if (rot/3)%2 == 0 {
+			toks, err := t.Tokenize([]byte(in.SQL))
+			out = append(out, Res{in.Name + "/Tokenize", "tokens=" + canon.Of(toks) + " err=" + canon.Err(err) + " comments=" + canon.Of(t.Comments)})
+		} else {
+			toks, err := t.TokenizeContext(simctx.Never(), []byte(in.SQL))
+			out = append(out, Res{in.Name + "/TokenizeContext", "tokens=" + canon.Of(toks) + " err=" + canon.Err(err) + " comments=" + canon.Of(t.Comments)})
+		}
 	}
 	return out
 }
 
 // ParBatteryCheap runs three position-less probes.
-func ParBatteryCheap(p *parser.Parser) []Res {
+func ParBatteryCheap(p *parser.Parser, rot int) []Res {
 	out := make([]Res, 0, 3)
-	for _, i := range cheapIdx {
+	for n := range cheapIdx {
+		i := cheapIdx[(n+rot)%len(cheapIdx)]
 		in, toks := Inputs[i], probeTokens[i]
-		tree, err := p.ParseFromModelTokens(toks)
-		out = append(out, Res{in.Name + "/ParseFromModelTokens", "tree=" + canon.Of(tree) + " err=" + canon.Err(err)})
+		if (rot/3)%2 == 0 {
+			tree, err := p.ParseFromModelTokens(toks)
+			out = append(out, Res{in.Name + "/ParseFromModelTokens", "tree=" + canon.Of(tree) + " err=" + canon.Err(err)})
+		} else {
+			tree, err := p.ParseContextFromModelTokens(simctx.Never(), toks)
+			out = append(out, Res{in.Name + "/ParseContextFromModelTokens", "tree=" + canon.Of(tree) + " err=" + canon.Err(err)})
+		}
 	}
 	return out
 }
